@@ -1,0 +1,61 @@
+//go:build verif
+
+// Contracts for the CLI helpers, checked by /verif/govc (comment-only; compiled only with -tags verif).
+// Ghost state: exitCode (< 0 while the process runs), stdout, and one output path with fsExists, fsWritable,
+// fsContent, fOffset, fAppend, fWr (the open file's write offset / append mode / write access).
+package helpers
+
+//@ prelude c18
+
+//@ func CheckError(err error)
+//@   requires exitCode < 0
+//@   ensures [C18:exit-on-error] err != nil ==> exitCode == 2
+//@   ensures [C18:continue] err == nil ==> exitCode < 0
+
+//@ func ReadOrPanic(path string) []byte
+//@   requires exitCode < 0
+//@   ensures [C18:content] exitCode < 0 ==> result == fileBytes(path)
+//@   ensures [C18:exit] exitCode >= 0 ==> exitCode == 2
+
+//@ func ValidateNArgs(nArgs int, usage string)
+//@   requires exitCode < 0
+//@   ensures [C18:ok] exitCode < 0 ==> len(os.Args) == nArgs
+//@   ensures [C18:exit] exitCode >= 0 ==> exitCode == 1
+//@   ensures [C18:quiet] stdout == old(stdout)
+
+//@ func ValidateNsArgs(nsArgs []int, usage string)
+//@   requires exitCode < 0
+//@   ensures [C18:ok] exitCode < 0 ==> exists k int :: 0 <= k && k < len(nsArgs) && len(os.Args) == nsArgs[k]
+//@   ensures [C18:exit] exitCode >= 0 ==> exitCode == 1
+//@   ensures [C18:quiet] stdout == old(stdout)
+//@   loop 1 /* for _, nArgs := range nsArgs */
+//@     invariant [C18] exitCode < 0 && stdout == old(stdout)
+
+//@ func errorArgs(usage string)
+//@   requires exitCode < 0
+//@   ensures [C18:exit] exitCode == 1
+//@   ensures [C18:quiet] stdout == old(stdout)
+
+//@ func ExistsFile(path string) bool
+//@   ensures [C18:exists] result == fsExists
+
+//@ func OpenFile(path string) *os.File
+//@   requires exitCode < 0
+//@   ensures [C18:opened] exitCode < 0 ==> (fsExists && fsContent == "" && fOffset == 0 && !fAppend && fWr && result != nil)
+//@   ensures [C18:exit] exitCode >= 0 ==> exitCode == 2
+
+//@ func CreateFile(path string) *os.File
+//@   requires exitCode < 0
+//@   ensures [C18:created] exitCode < 0 ==> (fsExists && fsContent == "" && fOffset == 0 && !fAppend && fWr && result != nil)
+//@   ensures [C18:exit] exitCode >= 0 ==> exitCode == 2
+
+//@ func OpenOrCreateFile(path string) *os.File
+//@   requires exitCode < 0
+//@   ensures [C18:ready] exitCode < 0 ==> (fsExists && fsContent == "" && fOffset == 0 && !fAppend && fWr && result != nil)
+//@   ensures [C18:exit] exitCode >= 0 ==> exitCode == 2
+
+//@ func WriteString(file *os.File, content string)
+//@   requires exitCode < 0
+//@   requires [C18:fresh-file] fsContent == "" && fOffset == 0 && !fAppend && fWr && file != nil
+//@   ensures [C18:written] exitCode < 0 ==> fsContent == content
+//@   ensures [C18:exit] exitCode >= 0 ==> exitCode == 2
